@@ -75,6 +75,8 @@ class CNFLinear(BaseCNF):
             lits = list(lits)
         if check:
             self._check_and_update(lits)
+            # plain integers (e.g. `True` is the literal 1)
+            lits = [int(lit) for lit in lits]
 
         desired_sign = 1 if constant == 1 else -1
         for signs in product([1, -1], repeat=len(lits)):
@@ -137,6 +139,8 @@ class CNFLinear(BaseCNF):
 
         if check:
             self._check_and_update(lits)
+            # plain integers (e.g. `True` is the literal 1)
+            lits = [int(lit) for lit in lits]
 
         # We fist manage the case of !=
         if op == "!=":
